@@ -140,3 +140,9 @@ Definition enum_violation (c : opcall) : bool :=
   | OGetConfig _ _ wd => out_of wd WD_MODES
   | _ => false
   end.
+
+(* what a device profile's hook on the finished <edit-config> element (transform_edit_config) may do to ONE direct child of
+   that element: leave it as it is, or move an un-namespaced <config> - the parameter element the hook is documented to patch -
+   into the base namespace, keeping its attributes and ALL of its content (the caller's data) as they are *)
+Definition hook_child (c c' : tree) : Prop :=
+  c' = c \/ exists a k, c = Elem (a_ s_config) a k /\ c' = Elem (b_ s_config) a k.
